@@ -389,6 +389,7 @@ fn deep(ctx: &Ctx, rep: &mut Report) {
                     }
                 },
                 key: &|s: &(Server, u16)| s.0.snapshot(),
+                project: None,
                 label: &|a| format!("{:?}/{:?}/payload{}/method{} reply{}", ts[a / 2].b1, ts[a / 2].b2, ts[a / 2].payload, ts[a / 2].method, kinds[a % 2]),
             },
         );
